@@ -66,8 +66,11 @@ func drainChannel[T any](ch <-chan T) {
 
 func cleanInfiniteChannel(ch *channels.InfiniteChannel) {
 	ch.Close()
-	// drain all remaining items
-	drainChannel(ch.Out())
+	// Drain until the channel's pump goroutine closes the output: it only exits
+	// once everything it buffered has been read, so a non-blocking drain that
+	// stops at the first empty poll would leave it blocked for ever.
+	for range ch.Out() {
+	}
 }
 
 // Returns the binary formatted Administrative Shutdown Communication from the
